@@ -21,6 +21,7 @@ package main
 import (
 	"bytes"
 	"encoding/hex"
+	"flag"
 	"fmt"
 	"math"
 	"sort"
@@ -433,7 +434,11 @@ type Job struct {
 	First  int    `json:"first,omitempty"`
 	MaxLen int    `json:"maxlen,omitempty"`
 	Seq    []int  `json:"seq,omitempty"`
+	// DeadlineMs (unix ms): the job stops enumerating when it has passed and reports Partial
+	DeadlineMs int64 `json:"dl,omitempty"`
 }
+
+func (j Job) late() bool { return j.DeadlineMs > 0 && time.Now().UnixMilli() > j.DeadlineMs }
 
 type Result struct {
 	// BFS part (mc.ExecResult wire form)
@@ -456,6 +461,7 @@ type Result struct {
 	Sample        any               `json:"sample,omitempty"`
 	Notes         []string          `json:"notes,omitempty"`
 	Err           string            `json:"err,omitempty"`
+	Partial       bool              `json:"partial,omitempty"`
 }
 
 type replayArt struct {
@@ -566,6 +572,10 @@ func o1Job(j Job) (res Result) {
 	var lastP *c07lib.Proposal
 	var lastFailed [][]byte
 	for _, seq := range seqs {
+		if j.late() {
+			res.Partial = true
+			break
+		}
 		txs, stage := w.instantiate(seq)
 		wantKept, wantFailed, wantOver := w.predict(txs, stage)
 		if len(wantFailed) == 0 && len(wantOver) == 0 {
@@ -678,7 +688,7 @@ func o1Job(j Job) (res Result) {
 	}
 	res.DistinctPost = len(posts)
 	// commit the last block as a replica would and compare the committed state / index
-	if lastP != nil && len(res.Viols) == 0 {
+	if lastP != nil && len(res.Viols) == 0 && !j.late() {
 		blk := c07lib.BlockFromProposal(lastP)
 		if _, e := c07lib.ReplicaCommit(c, blk, 0, nil, ""); e != nil {
 			viol("C07:commit-of-proposed-block-refused", fmt.Sprintf("state=%v cfg=%s: the block produced by the proposer path is refused by the replica path: %v", recipeList(j.Path), cfg.name, e), nil)
@@ -1033,6 +1043,10 @@ func o2Job(j Job) (res Result) {
 	)
 
 	for _, cs := range cases {
+		if j.late() {
+			res.Partial = true
+			break
+		}
 		b := cloneBlock(honest)
 		if cs.mutate(b) {
 			continue
@@ -1123,6 +1137,7 @@ func main() {
 	if mc.IsWorker() {
 		mc.ServeWorker(handle)
 	}
+	startTime := time.Now()
 	r := mc.Start("C07", "model_checking", 85*time.Second, 25*time.Minute)
 	r.Assumptions = []string{
 		"direct path: the store/FSM calls of Mempool.CheckMempool (proposer) and of CommitCertificate/ApplyAndValidateBlock/CheckAndSetLastCertificate (replica) are written out in the harness; mempool, p2p, bft and controller.ValidateProposal/HandlePeerBlock are not executed (no controller-level node in env yet)",
@@ -1184,9 +1199,22 @@ func main() {
 			jobs = append(jobs, Job{Kind: "o1", Cfg: s.cfg, Path: s.path, First: f, MaxLen: maxLen})
 		}
 	}
+	budget := 85 * time.Second
+	if !r.Quick() {
+		budget = 25 * time.Minute
+	}
+	if f := flag.Lookup("budget"); f != nil {
+		if d, err := time.ParseDuration(f.Value.String()); err == nil && d > 0 {
+			budget = d
+		}
+	}
+	for i := range jobs {
+		jobs[i].DeadlineMs = startTime.Add(budget).UnixMilli()
+	}
 	fmt.Printf("jobs: %d over %d states\n", len(jobs), len(states))
 	results, crashed := mc.Map[Job, Result](pool, jobs, r.Expired)
 	var blocks, withFail, withOver, failingTxs, replicaRuns, commits, rejections, done, distinct int
+	partial := 0
 	stages := map[string]int{}
 	nodeStages := map[string]int{}
 	nodeRej := 0
@@ -1209,6 +1237,9 @@ func main() {
 		if res.Err != "" {
 			r.Violation("C07:harness-error", fmt.Sprintf("job %+v: %s", jobs[i], res.Err), jobs[i])
 			continue
+		}
+		if res.Partial {
+			partial++
 		}
 		blocks += res.Blocks
 		withFail += res.WithFailing
@@ -1242,9 +1273,9 @@ func main() {
 		}
 		statesDone[fmt.Sprint(jobs[i].Cfg, jobs[i].Path)] = true
 	}
-	if done < len(jobs) {
+	if done < len(jobs) || partial > 0 {
 		r.Exhaustive = false
-		r.Note("stopped at %d of %d jobs (deadline); states are processed in order of depth", done, len(jobs))
+		r.Note("stopped at %d of %d jobs (deadline), %d of them cut short; states are processed in order of depth", done, len(jobs), partial)
 	}
 	for n := range notes {
 		r.Note("%s", n)
